@@ -23,7 +23,13 @@ func genPriorityPlan(t *rapid.T) *Plan {
 		in.Priority = rapid.SampledFrom([]int{1, 1, 2, 2, 3, 0, 100}).Draw(t, "prio")
 		in.Takeover = in.Priority > 0 && rapid.IntRange(0, 3).Draw(t, "enabled") > 0
 		if rapid.IntRange(0, 2).Draw(t, "wd") == 0 {
-			in.WatchDelay = genLatList(t, 2*h, "wd")
+			// takeover by a running follower is triggered by the incumbent's heartbeat events: the promptness
+			// clause presumes timely notifications (same H/10 as store latencies); the safety clause does not
+			wdMax := h / 10
+			if mode == "adversarial" {
+				wdMax = 2 * h
+			}
+			in.WatchDelay = genLatList(t, wdMax, "wd")
 		}
 		p.Instances = append(p.Instances, in)
 	}
@@ -76,7 +82,7 @@ func seq(n int) []int {
 
 func TestC10(t *testing.T) {
 	RunCheck(t, CheckSpec{Prop: "C10",
-		Rule:   "2-5 instances with priorities from {0,1,1,2,2,3,100} (ties frequent) and mixed takeover flags; every start order (a drawn permutation) with gaps from 2ns to 6H, or a challenger started at a phase (issued/applied/returning) of the incumbent's k-th heartbeat; two modes: 'prompt' (fault-free, RTT <= H/10, starts only) and 'adversarial' (latencies up to H/3 per direction, stops and restarts) for the safety clause; oracle: every applied Update over another party's live record comes from an enabled instance with strictly higher priority than the stored one; in prompt mode a strictly higher-priority enabled instance next to a lower-priority leader leads within 3H, the deposed leader is down within H+2T of the replacing write, and after settling the owner never changes again and no outranked instance leads. Non-trivial = a preemption opportunity (enabled instance vs a different priority) or a tie among enabled instances; distinct by plan hash.",
+		Rule:   "2-5 instances with priorities from {0,1,1,2,2,3,100} (ties frequent) and mixed takeover flags; every start order (a drawn permutation) with gaps from 2ns to 6H, or a challenger started at a phase (issued/applied/returning) of the incumbent's k-th heartbeat; two modes: 'prompt' (fault-free, RTT <= H/10, watch deliveries delayed by at most H/10, starts only) and 'adversarial' (latencies up to H/3 per direction, stops and restarts) for the safety clause; oracle: every applied Update over another party's live record comes from an enabled instance with strictly higher priority than the stored one; in prompt mode a strictly higher-priority enabled instance next to a lower-priority leader leads within 3H, the deposed leader is down within H+2T of the replacing write, and after settling the owner never changes again and no outranked instance leads. Non-trivial = a preemption opportunity (enabled instance vs a different priority) or a tie among enabled instances; distinct by plan hash.",
 		Gen:    genPriorityPlan,
 		Oracle: OracleC10})
 }
